@@ -16,6 +16,7 @@ from .properties import PROPERTIES
 from . import terms as T
 
 KF_PATH = os.path.join(VERIF, 'KNOWN_FINDINGS.json')
+REPLAY_DIR = os.path.join(VERIF, 'replays')
 
 
 def norm(s):
@@ -64,8 +65,9 @@ def main(argv):
     t_start = time.time()
     timeout = 10 if tier == 'quick' else 60
     repo = os.environ.get('VERIF_REPO', '/repo')
-    os.makedirs(os.path.join(VERIF, 'evidence'), exist_ok=True)
-    evidence_path = os.path.join(VERIF, 'evidence', prop + '.json')
+    evdir = os.environ.get('VERIF_EVIDENCE_DIR') or os.path.join(VERIF, 'evidence')
+    os.makedirs(evdir, exist_ok=True)
+    evidence_path = os.path.join(evdir, prop + '.json')
     violations = []
     known_lines = []
     try:
@@ -171,7 +173,9 @@ def main(argv):
     if n_obl == 0:
         failed.append((None, None, 'vacuity', 'no obligations were generated for %s' % prop))
     # report
-    os.makedirs(os.path.join(VERIF, 'replays', prop), exist_ok=True)
+    global REPLAY_DIR
+    REPLAY_DIR = os.environ.get('VERIF_REPLAY_DIR') or os.path.join(VERIF, 'replays')
+    os.makedirs(os.path.join(REPLAY_DIR, prop), exist_ok=True)
     kf_hit = []
     viol_n = 0
     for run, o, kind, detail in failed:
@@ -197,7 +201,7 @@ def main(argv):
         else:
             name = 'elab' if kind == 'elab' else kind
             fnname = run.oname if run is not None else prop
-            path = os.path.join(VERIF, 'replays', prop, '%s_%s_%s.json' % (re.sub(r'\W', '_', fnname), name, hashlib.sha1(detail.encode()).hexdigest()[:8]))
+            path = os.path.join(REPLAY_DIR, prop, '%s_%s_%s.json' % (re.sub(r'\W', '_', fnname), name, hashlib.sha1(detail.encode()).hexdigest()[:8]))
             json.dump({'property': prop, 'obligation': '%s/%s' % (fnname, name), 'detail': detail,
                        'note': 'the contract could not be elaborated against the current code (or a guard failed): '
                                'every obligation of it counts as failed'}, open(path, 'w'), indent=1)
@@ -244,7 +248,7 @@ def write_replay(prop, run, o, seed, tier):
         if re.match(r'^(pc|dq|dr|m|hm|ret|d)!\d+$', k2):
             continue
         keep[k2] = v
-    path = os.path.join(VERIF, 'replays', prop, re.sub(r'[^A-Za-z0-9_.\-]', '_', o.name)[:120] + '.json')
+    path = os.path.join(REPLAY_DIR, prop, re.sub(r'[^A-Za-z0-9_.\-]', '_', o.name)[:120] + '.json')
     doc = {'property': prop, 'obligation': o.name, 'key': ob_key(o.name), 'kind': o.kind, 'function': run.fn['name'],
            'clause': o.text, 'pos': o.pos, 'solver_result': r.get('result'), 'solver': r.get('solver'),
            'query_form': r.get('form'), 'candidate_model': bool(r.get('candidate_model')),
